@@ -406,6 +406,11 @@ func (x *ctx) measure(s, e int) (lo, hi fixed.Int26_6, exact bool) {
 		lneg = 0
 	}
 	exact = dA == dB && lead == 0
+	if dA == dB {
+		// both readings of "the line end in paragraph direction" name the same glyph:
+		// the statement's measure is unambiguous, use it on both sides
+		dmax, dmin = dA, dA
+	}
 	// lo: most lenient reading (largest discounts); hi: strictest (no positive discount)
 	lo = total - dmax - lpos
 	hi = total - dmin - lneg
@@ -656,7 +661,10 @@ func JudgeC04(c *Case, res *Result) []Finding {
 			widthLaws = false
 		}
 		for _, g := range ir.Glyphs {
-			if axisAdv(ir.Direction, g) < 0 {
+			ls0, ls1 := shaping.VerifLetterSpacing(g)
+			if axisAdv(ir.Direction, g) < 0 || ls0 < 0 || ls1 < 0 {
+				// negative letter spacing makes "not counting the trailing letter spacing" a
+				// penalty: a longer line can then measure less than a shorter one
 				widthLaws = false
 			}
 		}
